@@ -172,6 +172,36 @@ def run(chk, b, tier):
     chk.cov["tables_rendered_for_in_situ_check"] = len(obs2)
     from ._camp import generic_fault_sweep
     generic_fault_sweep(chk, b, "C12", [['-v', '--no-progress', '--names=none']])
+    # the table delivered through a one-page pipe that is switched to non-blocking mode under the running program: a write that
+    # stops half-way (EAGAIN) must end the run, or be continued exactly where it stopped - never leave doubled or dropped digits
+    import os
+    import shutil
+    from .. import gen as G
+    d = os.path.join(b.scratchdir(), "nbtable")
+    shutil.rmtree(d, ignore_errors=True)
+    os.makedirs(d)
+    m = G.random_model(rng, size="medium", hostile_names=False)
+    m.config = "".join('[refgroup "g%d"]\n\tname = Group number %d with a long display name\n\tinclude = refs/%s\n' % (k, k, ["heads", "tags", "remotes", "notes"][k % 4])
+                       for k in range(30))
+    gitdir = G.write_model(m, os.path.join(d, "repo"))
+    nb = 0
+    for argv in (["-v", "--no-progress"], ["-v", "--no-progress", "--names=none"], ["--threshold=0", "--no-progress", "--names=hash"]):
+        r0 = R.sizer(b.sizer(), gitdir, argv, tmpdir=d)
+        for rep in range(2 if tier == "quick" else 8):
+            r, got = R.nonblocking_stdout_run(b.sizer(), gitdir, argv, b.shimdir(), d)
+            chk.count()
+            nb += 1
+            if r.timed_out:
+                chk.inconc("watchdog in a non-blocking stdout run")
+            elif r.rc == 0 and got != r0.out:
+                tab = P.parse_table(got, lenient=True)
+                chk.violation("C12/in-table/exit-0-with-a-table-that-differs-from-the-fault-free-one/stdout-switched-to-non-blocking",
+                              {"argv": argv, "fault_free_bytes": len(r0.out), "received_bytes": len(got),
+                               "first_difference": R._first_diff_lines(r0.out, got), "parser_errors": tab.errors[:2]})
+        if len(r0.out) > 4096:
+            chk.nontrivial(("nonblocking-table", tuple(argv)))
+    chk.cov["tables_through_a_pipe_switched_to_non_blocking"] = nb
+    shutil.rmtree(d, ignore_errors=True)
     chk.cov["rule"] = ("real counts.Metric/Binary.FormatNumber on exhaustive +-64 neighbourhoods of every prefix boundary and "
                        "precision switch, every band edge tie and 1000 seeded ties per band, 2^k+-2, 2^64-1, plus stratified "
                        "random values (log-uniform and mantissa-uniform); integer-only Go reference judges every clause; an "
